@@ -87,6 +87,8 @@ pub struct Session {
 
 impl Session {
     async fn handle_io_error(&self, context: &str, error: std::io::Error) -> AnyTlsError {
+        #[cfg(feature = "verif-hooks")]
+        crate::verif::sched_point("handle_io_error:entry").await;
         tracing::error!(
             session_id = self.id(),
             ctx = context,
@@ -218,6 +220,8 @@ impl Session {
             return Ok(());
         }
         self.close_notify.notify_waiters();
+        #[cfg(feature = "verif-hooks")]
+        crate::verif::sched_point("close:after_flag").await;
 
         // Close stream data receiver so process_stream_data exits
         // Close all streams and notify pending waiters
@@ -231,6 +235,8 @@ impl Session {
             }
         }
 
+        #[cfg(feature = "verif-hooks")]
+        crate::verif::sched_point("close:before_writer").await;
         // Attempt to shutdown writer gracefully
         {
             let mut writer = self.writer.lock().await;
@@ -809,6 +815,8 @@ impl Session {
 
         tracing::trace!("[Session] Stream {} stored in session", stream_id);
 
+        #[cfg(feature = "verif-hooks")]
+        crate::verif::sched_point("open_stream:before_syn").await;
         // Send SYN frame
         tracing::trace!("[Session] Sending SYN frame for stream {}", stream_id);
         let frame = Frame::control(Command::Syn, stream_id);
@@ -905,6 +913,8 @@ impl Session {
             }
         }
 
+        #[cfg(feature = "verif-hooks")]
+        crate::verif::sched_point("write_frame:after_buffer").await;
         // Log what we're about to send
         if buffer.len() >= 7 {
             tracing::info!(
@@ -932,6 +942,8 @@ impl Session {
                 "[Session] write_with_padding: Writing {} bytes without padding",
                 buffer.len()
             );
+            #[cfg(feature = "verif-hooks")]
+            crate::verif::sched_point("write_with_padding:before_lock_nopad").await;
             let mut writer = self.writer.lock().await;
             if let Err(e) = writer.write_all(&buffer).await {
                 return Err(self.handle_io_error("write_without_padding", e).await);
@@ -950,6 +962,8 @@ impl Session {
         let pkt = self
             .pkt_counter
             .fetch_add(1, std::sync::atomic::Ordering::SeqCst);
+        #[cfg(feature = "verif-hooks")]
+        crate::verif::sched_point("write_with_padding:after_pkt").await;
         let padding_factory = {
             let padding_guard = self.padding.read().await;
             padding_guard.clone()
@@ -985,6 +999,8 @@ impl Session {
             return Ok(());
         }
 
+        #[cfg(feature = "verif-hooks")]
+        crate::verif::sched_point("write_with_padding:before_lock").await;
         let mut writer = self.writer.lock().await;
 
         for size in pkt_sizes {
@@ -1288,6 +1304,8 @@ impl Session {
                         stream_id,
                         iteration
                     );
+                    #[cfg(feature = "verif-hooks")]
+                    crate::verif::sched_point("process_stream_data:before_write").await;
                     // Send data frame
                     let write_result = self.write_data_frame(stream_id, data).await;
                     match write_result {
